@@ -133,7 +133,9 @@ class State:
             ctx.count("coords_compared")
             ncmp += 1
             ctx.maxi("max:err_over_tol", abs(R - G[i, k]) / tol)
-            if not abs(R - G[i, k]) <= tol:
+            if not abs(R - G[i, k]) <= tol and not numdiff.confirmed_mismatch(f, L[i, k], float(G[i, k]), scale, ferr, proj_floor):
+                ctx.count("mismatch_not_confirmed_at_finer_scales")
+            elif not abs(R - G[i, k]) <= tol:
                 ctx.violation("numeric-derivative/logit", "gradient-mismatch/" + mech,
                               observed={"analytic": float(G[i, k]), "coordinate": [i, k], "P": P, "mode": self.mode},
                               expected={"numeric": R, "tol": tol}, detail={"A": A})
@@ -162,7 +164,9 @@ class State:
             ctx.count("dirs_compared")
             ncmp += 1
             ctx.maxi("max:err_over_tol", abs(R - ana) / tol)
-            if not abs(R - ana) <= tol:
+            if not abs(R - ana) <= tol and not numdiff.confirmed_mismatch(f, 1.0, ana, scale, ferr, 1e4 * numdiff.EPS * float(np.abs(g * V).sum())):
+                ctx.count("mismatch_not_confirmed_at_finer_scales")
+            elif not abs(R - ana) <= tol:
                 ctx.violation("numeric-derivative/direction", "gradient-mismatch/" + mech,
                               observed={"analytic": ana, "P": P, "V": V, "mode": self.mode},
                               expected={"numeric": R, "tol": tol}, detail={"A": A})
